@@ -86,6 +86,10 @@ def unit_grammar(unit):
             elif ind not in seen:
                 bad.append(('inconsistent-nesting', 'line %d: indentation %d was never opened' % (i + 1, ind)))
             last = ind
+            # consumer-level structure: isbn.split() reads exactly three levels (EAN.UCC prefix / registration group /
+            # registrant range, as in the ISBN RangeMessage); a deeper entry would be silently dropped from the hyphenation
+            if name in CONSUMER_DEPTH and ind > CONSUMER_DEPTH[name] - 1:
+                bad.append(('entry-deeper-than-the-consumer-reads', 'line %d: nesting level %d, %s reads %d levels' % (i + 1, ind + 1, name, CONSUMER_DEPTH[name])))
     ur.res['states'] = 1
     ur.res['transitions'] = facts
     ur.res['obligations'] = facts
@@ -96,6 +100,9 @@ def unit_grammar(unit):
         ur.violation({'module': 'stdnum.numdb', 'func': 'read', 'options': name, 'kind': kind, 'witness': name, 'detail': detail[:300], 'frame': detail[:60],
                       'steps': [{'mod': 'numdb_probe', 'file': _HELPER, 'func': 'probe_shipped', 'args': [name, ''], 'kwargs': {}}]})
     return ur.finish()
+
+
+CONSUMER_DEPTH = {'isbn': 3}
 
 
 def unit_reach(unit):
